@@ -113,7 +113,8 @@ def build_ops(seed, tier, d, drv):
         # the same description from a JSON and a YAML file
         jp, yp = os.path.join(files_dir, f"c{k}.json"), os.path.join(files_dir, f"c{k}.yaml")
         json.dump(adesc, open(jp, "w"))
-        yaml.dump(adesc, open(yp, "w"), sort_keys=False, allow_unicode=True)
+        # (PyYAML's writer does not round-trip a literal NEL / LS / PS: such text goes out escaped)
+        yaml.dump(adesc, open(yp, "w"), sort_keys=False, allow_unicode=not any(c in json.dumps(adesc, ensure_ascii=False) for c in "\x85\u2028\u2029"))
         ops.append({"id": f"json{k}", "kind": "create_file", "path": jp})
         ops.append({"id": f"yaml{k}", "kind": "create_file", "path": yp})
         expect[f"json{k}"] = m["ok"]
